@@ -9,7 +9,8 @@ ROOT=$(cd "$(dirname "$0")/.." && pwd)
 SCR=$(mktemp -d /tmp/seedreg.XXXXXX)
 trap 'git -C /repo worktree prune; rm -rf "$SCR"' EXIT
 DRV=$ROOT/lean/.lake/build/bin/drv
-for d in "$ROOT"/seeded/*/; do
+SEEDED=${SEEDED_DIR:-$ROOT/seeded}
+for d in "$SEEDED"/*/; do
   id=$(basename "$d")
   if [ $# -gt 0 ]; then m=0; for p in "$@"; do case $id in $p*) m=1;; esac; done; [ $m = 1 ] || continue; fi
   prop=$(python3 -c "import json,sys; print(json.load(open('$d/meta.json'))['property'].split()[0])")
